@@ -143,6 +143,53 @@ def _same_indices(db, dd):
     return a == bb
 
 
+# ------------------------------------------------------------------ lookup tables
+def tables_case(run):
+    """-fptrs / -unique-names: the tables compiled into the code are indexed by wrapper
+    index - 1; they must name the same wrappers as the database does."""
+    db = run.db
+    code = open(run.oc, errors="replace").read()
+    n = len(db["wrappers"])
+    probs = []
+    checked = 0
+    if "fptrs" in run.c:
+        m = re.search(r"static void \*_in_fptrs\[(\d+)\] = \{\n(.*?)\n\};", code, re.S)
+        if not m:
+            return ["-fptrs given but the code has no _in_fptrs table"], 0
+        ents = [e.strip().rstrip(",") for e in m.group(2).splitlines() if e.strip()]
+        if int(m.group(1)) != n or len(ents) != n:
+            probs.append("_in_fptrs has %s/%d entries, the database %d wrappers" % (m.group(1), len(ents), n))
+        for i, e in enumerate(ents):
+            want = db["wrappers"].get(i + 1, {}).get("name", None)
+            got = re.sub(r"^\(void \*\)&?", "", e)
+            if want is None:
+                probs.append("_in_fptrs[%d] has no wrapper %d in the database" % (i, i + 1))
+            elif (want or "0") != got:
+                probs.append("_in_fptrs[%d] is %s but wrapper %d is named %s" % (i, got, i + 1, want or "(unnamed)"))
+            checked += 1
+    if "unique-names" in run.c:
+        m = re.search(r"static InterrogateUniqueNameDef _in_unique_names\[(\d+)\] = \{\n(.*?)\n\};", code, re.S)
+        if not m:
+            return probs + ["-unique-names given but the code has no _in_unique_names table"], checked
+        ents = re.findall(r'\{ "([^"]*)", (-?\d+) \}', m.group(2))
+        if int(m.group(1)) != n or len(ents) != n:
+            probs.append("_in_unique_names has %s/%d entries, the database %d wrappers" % (m.group(1), len(ents), n))
+        seen = set()
+        for u, k in ents:
+            k = int(k)
+            w = db["wrappers"].get(k + 1)
+            if w is None:
+                probs.append("_in_unique_names entry %s -> %d: no wrapper %d" % (u, k, k + 1))
+            elif w["unique_name"] != u:
+                probs.append("_in_unique_names says %s is wrapper %d, whose unique name is %s"
+                             % (u, k + 1, w["unique_name"]))
+            if k in seen:
+                probs.append("_in_unique_names lists index %d twice" % k)
+            seen.add(k)
+            checked += 1
+    return probs, checked
+
+
 # ----------------------------------------------------------------------- agreement
 def c_param(t):
     return t
@@ -189,7 +236,16 @@ def agreement_case(b, run, backend):
     res = {"status": "ok", "sig": "", "declared": len(pre), "asserted": len(post),
            "skipped": skipped}
     if rc != 0:
-        res.update(status="mismatch", sig=L.first_error(out), gxx=out[:3000])
+        # is it the agreement that fails, or does the generated code not compile at all
+        # (which is C03's business and leaves nothing to compare)?
+        rc2, out2 = L.syntax_only(b, run.dir, run.oc)
+        if rc2 != 0:
+            res.update(status="nocompile", sig=L.first_error(out2))
+            return res
+        sig = L.first_error(out)
+        sig = re.sub(r"wrapper \d+ _in[CP]\w+", "wrapper", sig)
+        sig = re.sub(r"_in[CP][A-Za-z0-9_]{8,}", "_inX", sig)
+        res.update(status="mismatch", sig=sig, gxx=out[:3000])
         return res
     p = tools.run(["nm", "-C", "--defined-only", obj], cwd=run.dir)
     defined = {}
@@ -460,6 +516,7 @@ def main():
     plain = L.GROUPS["plain"]
     nasty = L.GROUPS["nasty"]
     allatoms = plain + nasty
+    everyatom = allatoms + L.GROUPS["adversarial"]
     total_cov = {"%s.%s" % (k, f): 0 for k, f, _t in D.INDEX_FIELDS}
     cov_by_backend = {be: dict.fromkeys(total_cov, 0) for be in BACKENDS}
     unequal_loads = []
@@ -469,16 +526,39 @@ def main():
             total_cov[k] += v
             cov_by_backend[c[0]][k] += v
 
+    pending = []     # (kind, sig, key, names, c, detail)
+
     def report_closure(key, res, names, c):
-        ck.fail(key, "database not closed/consistent: %s%s"
-                % (res["problems"][0], " (+%d more)" % (len(res["problems"]) - 1) if len(res["problems"]) > 1 else ""),
-                {"observed": res["problems"][0], "kind": "closure", "atoms": names, "cfg": list(c),
-                 "problems": res["problems"][:40], "cmd": res.get("cmd")},
-                confirm=lambda: closure_case(b, root, names, c, "confirm-%d" % (hash(key) & 0xffffff))[0]["status"] == "closure")
+        sig = re.sub(r"\b\d+\b", "N", res["problems"][0])
+        pending.append(("closure", sig, key, names, c,
+                        {"problems": res["problems"][:40], "cmd": res.get("cmd"), "first": res["problems"][0]}))
+
+    def flush_failures():
+        """Group by (kind, back-end, normalised observation); report the smallest case of each
+        group once, after two confirming re-runs."""
+        groups = {}
+        for kind, sig, key, names, c, det in pending:
+            groups.setdefault((kind, c[0], sig), []).append((key, names, c, det))
+        for (kind, be, sig), members in sorted(groups.items()):
+            key, names, c, det = sorted(members, key=lambda m: (len(m[1]), len(m[2]), m[0]))[0]
+            what = {"closure": "database not closed/consistent: %s" % det.get("first", sig),
+                    "agreement": "generated code disagrees with the database: %s" % sig,
+                    "tables": "lookup table in the code disagrees with the database: %s" % det.get("first", sig),
+                    "ffi": "database-driven ctypes client: %s" % sig}[kind]
+            what += " [smallest of %d case(s) of back-end -%s with this observation]" % (len(members), be)
+            d = {"observed": sig, "kind": kind, "atoms": names, "cfg": list(c),
+                 "same_observation_cases": sorted(m[0] for m in members)[:400]}
+            d.update(det)
+            if kind == "closure":
+                conf = lambda names=names, c=c: closure_case(
+                    b, root, names, c, "confirm-%d" % (hash((tuple(names), c)) & 0xffffff))[0]["status"] == "closure"
+            else:
+                conf = lambda names=names, c=c, kind=kind: _again(b, root, names, c, kind)
+            ck.fail(key, what, d, confirm=conf)
 
     # ---- family 1: every atom alone x every configuration (closure)
     if want("atoms"):
-        jobs = [(a, c) for c in cfgs for a in allatoms]
+        jobs = [(a, c) for c in cfgs for a in everyatom]
 
         def one(j):
             a, c = j
@@ -506,7 +586,7 @@ def main():
 
     # ---- family 2: whole headers x every configuration (closure + agreement + ffi)
     if want("headers"):
-        hdrs = [("plain", plain), ("all", allatoms)]
+        hdrs = [("plain", plain), ("all", allatoms)] + [(a, [a]) for a in L.GROUPS["adversarial"]]
         if thorough:
             hdrs.append(("all-reversed", list(reversed(allatoms))))
         jobs = [(hn, names, c) for c in cfgs for hn, names in hdrs]
@@ -515,11 +595,17 @@ def main():
             hn, names, c = j
             res, run = closure_case(b, os.path.join(root, "h-" + hn), names, c, ckey(c), keep=True)
             ag = ff = None
+            if res["status"] == "ok" and ("fptrs" in c or "unique-names" in c):
+                tp, nchk = tables_case(run)
+                res["tables_checked"] = nchk
+                if tp:
+                    res["status"] = "tables"
+                    res["problems"] = tp
             if res["status"] == "ok" and c[0] in ("c", "python"):
                 ag = agreement_case(b, run, c[0])
                 if ag["status"] == "ok" and c[0] == "c" and "fnames" in c:
                     ff = ffi_case(b, run, names)
-            if res["status"] != "closure" and (ag is None or ag["status"] == "ok") and \
+            if res["status"] not in ("closure", "tables") and (ag is None or ag["status"] == "ok") and \
                     (ff is None or ff["status"] == "ok"):
                 run.cleanup()
             return j, res, ag, ff
@@ -531,12 +617,15 @@ def main():
                 key = "header|%s|%s" % (hn, ckey(c))
                 st = res["status"]
                 oc = {"ok": "closed", "closure": "not-closed", "rejected": "tool-rejects-options",
-                      "noexit0": "unjudged:exit!=0"}.get(st, st)
+                      "noexit0": "unjudged:exit!=0", "tables": "tables-disagree"}.get(st, st)
+                if res.get("tables_checked"):
+                    oc += "+tables"
+                    ck.extra["table_entries_checked"] = ck.extra.get("table_entries_checked", 0) + res["tables_checked"]
                 if ag:
                     oc += "+agree:" + ag["status"]
                 if ff:
                     oc += "+ffi:" + ff["status"]
-                ck.note(key, nontrivial=(st in ("ok", "closure") and res["records"] > 0),
+                ck.note(key, nontrivial=(st in ("ok", "closure", "tables") and res["records"] > 0),
                         outcome=oc + ":" + c[0], family="header-" + hn,
                         sample={"header": hn, "options": ["-" + x for x in c], "records": res["records"],
                                 "wrappers": res.get("wrappers"),
@@ -556,16 +645,17 @@ def main():
                     ck.extra["ffi_checked_results"] = ck.extra.get("ffi_checked_results", 0) + ff["checked"]
                 if st in ("closure", "unreadable"):
                     report_closure(key, res, names, c)
-                if ag and ag["status"] != "ok":
-                    ck.fail(key + "|agreement", "generated code disagrees with the database: %s" % ag["sig"],
-                            {"observed": ag["sig"], "kind": "agreement", "atoms": names, "cfg": list(c),
-                             "gxx": ag.get("gxx", "")[:2500]},
-                            confirm=lambda names=names, c=c: _again(b, root, names, c, "agreement"))
+                if st == "tables":
+                    pending.append(("tables", re.sub(r"\b\d+\b", "N", re.sub(r"_in[CP]\w+|\b[cp][A-Za-z0-9_]{8,}\b", "X", res["problems"][0])),
+                                    key + "|tables", names, c, {"problems": res["problems"][:20], "first": res["problems"][0]}))
+                if ag and ag["status"] == "nocompile":
+                    ck.extra.setdefault("unjudged_code_does_not_compile", []).append(key)
+                elif ag and ag["status"] != "ok":
+                    pending.append(("agreement", ag["sig"], key + "|agreement", names, c,
+                                    {"gxx": ag.get("gxx", "")[:2500]}))
                 if ff and ff["status"] != "ok":
-                    ck.fail(key + "|ffi", "database-driven ctypes client: %s" % ff["sig"],
-                            {"observed": ff["sig"], "kind": "ffi", "atoms": names, "cfg": list(c),
-                             "bad": ff.get("bad"), "out": ff.get("out", ff.get("gxx", ""))},
-                            confirm=lambda names=names, c=c: _again(b, root, names, c, "ffi"))
+                    pending.append(("ffi", ff["sig"], key + "|ffi", names, c,
+                                    {"bad": ff.get("bad"), "out": ff.get("out", ff.get("gxx", ""))}))
 
     # ---- family 3 (thorough): ordered pairs of atoms, closure
     if thorough and want("pairs") and not ck.expired(reserve=300):
@@ -597,6 +687,7 @@ def main():
                 if st in ("closure", "unreadable"):
                     report_closure(key, res, [a1, a2], c)
 
+    flush_failures()
     zero = sorted(k for k, v in total_cov.items() if v == 0)
     if zero and ck.only is None and not ck.violations:
         raise HarnessError("index-valued fields that were never non-zero in any explored database: %s" % zero)
@@ -625,9 +716,11 @@ def _again(b, root, names, c, what):
                             "%s-%d" % (what, hash((tuple(names), c)) & 0xffffff), keep=True)
     if res["status"] != "ok":
         return False
+    if what == "tables":
+        return bool(tables_case(run)[0])
     ag = agreement_case(b, run, c[0])
     if what == "agreement":
-        return ag["status"] != "ok"
+        return ag["status"] in ("mismatch", "symbol")
     return ffi_case(b, run, names)["status"] != "ok"
 
 
